@@ -1,6 +1,6 @@
 #!/bin/sh
 # tools/confirm_seed.sh <ID> : confirm a seeded change in its scratch worktree /tmp/wt/<ID> using /tmp/wt_out/<ID>/{patch.diff,demo.py}
-id=$1; wt=/tmp/wt/$id; out=/tmp/wt_out/$id
+id=$1; wt=${SEED_WT:-/tmp/wt}/$id; out=${SEED_OUT:-/tmp/wt_out}/$id
 git -C $wt checkout -q -- . || exit 2
 PYTHONPATH=$wt timeout 300 /venv/bin/python $out/demo.py > $out/demo_unchanged.log 2>&1; d0=$?
 git -C $wt apply $out/patch.diff || { echo "$id: patch does not apply"; exit 2; }
